@@ -20,7 +20,8 @@ ENGINE = "faults"
 TECHNIQUE = "audit-hook crash/torn-write/EIO enumeration over every mutating event; fresh-repository listing + metadata read oracle"
 RULE = (
     "for each scenario (vdb and binpkg: install into a new category / beside a sibling, replace same version, "
-    "vdb replace by a higher version, uninstall the last package of a category / beside a sibling) the fault-free run is "
+    "vdb replace by a higher version / by a revision bump 1 -> 1-r1 / by a revision drop 1-r1 -> 1, binpkg replace of the "
+    "same version rebuilt within the same second (equal integer mtime of old and new tbz2), uninstall the last package of a category / beside a sibling) the fault-free run is "
     "recorded and every mutating event (including each unlink/rmdir inside shutil.rmtree) becomes a crash point; every "
     "open-for-write additionally a torn write; thorough adds one EIO per event. One evaluation = one faulted execution "
     "from a fresh copy of the pre-state followed by a fresh tree(location) listing and a read of every tracked attribute, the "
@@ -33,16 +34,19 @@ ASSUMPTIONS = [
     "Excl: for a replace by a *different* version 'both versions listed, each complete' is accepted (the statement names "
     "only 'partially written' and 'neither' as forbidden; no sequence of directory renames can switch two names at once)",
     "Excl: binpkg replace by a different version (only reachable through install_or_replace, which matches the same version)",
-    "Excl: Packages-cache hits decided by an equal integer mtime of old and new tbz2 (wall-clock dependent); the old "
-    "tbz2 is given mtime 1000 so the fresh view always reads the xpak",
+    "equal integer mtimes of old and new tbz2 are a scenario of their own (same-second: the harness sets the finished "
+    "temp file's mtime into the old file's second before finalization); in the other binpkg scenarios the old tbz2 has "
+    "mtime 1000, so there the fresh view always reads the xpak",
+    "Excl: binpkg replace by a revision bump: like any binpkg replace by another fullver it leaves the old tbz2 behind "
+    "even when it completes, and is only reachable through install_or_replace, which matches the same fullver",
     "the repository lock is the default fake lock; concurrent readers during the update are not modelled, only the "
     "state a fresh process sees after the death of the writer",
     "old/new reference states are read once from the fault-free pre/post trees with the same view function and checked "
     "against the hand-written tags, so the view itself is validated",
 ]
 BOUNDS = {
-    "quick": "11 scenarios; every mutating event of each (40-110 per vdb scenario, 2-9 per binpkg scenario) as a crash "
-    "point + every open-for-write as a torn write",
+    "quick": "14 scenarios; every mutating event of each (40-110 per vdb scenario, 2-9 per binpkg scenario) as a crash "
+    "point + a crash right after every rename/link/symlink + every open-for-write as a torn write",
     "thorough": "same + one injected EIO at every event (process stays alive, the operation's own error path runs)",
 }
 
@@ -51,15 +55,27 @@ SCENARIOS = [
     ("vdb", "install-beside-sibling"),
     ("vdb", "replace-same-version"),
     ("vdb", "replace-higher-version"),
+    ("vdb", "replace-revision-bump"),
+    ("vdb", "replace-revision-drop"),
     ("vdb", "uninstall-last-of-category"),
     ("vdb", "uninstall-beside-sibling"),
     ("bin", "install-new-category"),
     ("bin", "install-beside-sibling"),
     ("bin", "replace-same-version"),
+    ("bin", "replace-same-version-same-second"),
     ("bin", "uninstall-last-of-category"),
     ("bin", "uninstall-beside-sibling"),
 ]
 SHARDS = {"vdb": 8, "bin": 2}
+
+# replace scenarios: name -> (tag of the installed package, tag of the replacing package)
+REPLACE = {
+    "replace-same-version": ("old", "new"),  # cat/pkg-1 -> cat/pkg-1
+    "replace-higher-version": ("old", "hi"),  # cat/pkg-1 -> cat/pkg-2
+    "replace-revision-bump": ("old", "r1"),  # cat/pkg-1 -> cat/pkg-1-r1 (same version, other directory name)
+    "replace-revision-drop": ("oldr1", "new"),  # cat/pkg-1-r1 -> cat/pkg-1
+    "replace-same-version-same-second": ("old", "new"),  # rebuilt within the second the old tbz2 was written in
+}
 
 
 def tasks(tier):
@@ -209,8 +225,9 @@ class Fixture:
         self.repo = os.path.join(self.run_root, "repo")
         self.tmpl = os.path.join(s, "tmpl")
         src = os.path.join(s, "src")
-        for tag, pf in (("old", "pkg-1"), ("sib", "other-1")):
+        for tag, pf in (("old", "pkg-1"), ("sib", "other-1"), ("oldr1", "pkg-1-r1")):
             _write_vdb_entry(os.path.join(src, "a"), "cat", pf, tag)
+        _write_vdb_entry(os.path.join(src, "b"), "cat", "pkg-1-r1", "r1", slot="1")
         _write_vdb_entry(os.path.join(src, "b"), "cat", "pkg-1", "new", slot="1")
         _write_vdb_entry(os.path.join(src, "b"), "cat", "pkg-2", "hi", slot="2/2")
         ta = ondisk.tree(os.path.join(src, "a"), disable_cache=True)
@@ -224,9 +241,11 @@ class Fixture:
             "sib": get(ta, "=cat/other-1", "sib"),
             "new": get(tb, "=cat/pkg-1", "new"),
             "hi": get(tb, "=cat/pkg-2", "hi"),
+            "r1": get(tb, "=cat/pkg-1-r1", "r1"),
+            "oldr1": get(ta, "=cat/pkg-1-r1", "oldr1"),
         }
         pmtmp = os.path.join(s, "pmtmp")
-        for pf in ("pkg-1", "pkg-2", "other-1"):
+        for pf in ("pkg-1", "pkg-2", "other-1", "pkg-1-r1"):
             d = os.path.join(pmtmp, "cat", pf, "temp")
             os.makedirs(d)
             with open(os.path.join(d, "NEEDED"), "w") as f:
@@ -236,23 +255,29 @@ class Fixture:
         op = name.split("-")[0]
         self.op = op
         pre = []
-        if op in ("replace", "uninstall"):
-            pre.append("old")
+        self.oldtag = None
+        if op == "replace":
+            self.oldtag, self.newtag = REPLACE[name]
+        else:
+            self.oldtag = "old" if op == "uninstall" else None
+            self.newtag = "new" if op == "install" else None
+        if self.oldtag:
+            pre.append(self.oldtag)
         if name.endswith("beside-sibling"):
             pre.append("sib")
-        self.newtag = {"install": "new", "replace": "hi" if "higher" in name else "new", "uninstall": None}[op]
+        self.same_second = name.endswith("same-second")
         # pre-state template, produced by the real (fault-free) install operation
         os.makedirs(self.tmpl)
         for tag in pre:
             t = _tree(kind, self.tmpl)
             self._install(t, self.pkgs[tag])
-        if kind == "bin":
+        if kind == "bin" and not self.same_second:
             for dp, _dn, fn in os.walk(self.tmpl):
                 for n in fn:
                     if n.endswith(".tbz2"):
                         os.utime(os.path.join(dp, n), (1000, 1000))
         self.old_state = view(kind, self.tmpl)
-        self.target_old = "cat/pkg-1" if "old" in pre else None
+        self.target_old = self.pkgs[self.oldtag].cpvstr if self.oldtag else None
         self.target_new = self.pkgs[self.newtag].cpvstr if self.newtag else None
         self.inj = _fd_injector(self.run_root)
         # fault-free recording
@@ -290,7 +315,7 @@ class Fixture:
             for cpv, v in st.items():
                 if isinstance(v, str):
                     raise RuntimeError(f"reference state unreadable: {cpv}: {v}")
-        if self.target_old and self.old_state[self.target_old][0] != "desc old":
+        if self.target_old and self.old_state[self.target_old][0] != f"desc {self.oldtag}":
             raise RuntimeError("old description")
         if self.target_new:
             v = self.new_state[self.target_new]
@@ -311,9 +336,11 @@ class Fixture:
 
         kind, op = self.kind, self.op
         t = _tree(kind, self.repo)
-        oldp = t.match(atom("=cat/pkg-1"))[0] if op in ("replace", "uninstall") else None
+        oldp = t.match(atom("=" + self.target_old))[0] if op in ("replace", "uninstall") else None
         newp = self.pkgs[self.newtag] if self.newtag else None
         domain = self.domain
+        inj, same_second = self.inj, self.same_second
+        old_mtime = os.stat(t._get_path(oldp)).st_mtime_ns if same_second else None
 
         def run():
             if op == "install":
@@ -324,6 +351,16 @@ class Fixture:
                 o = t.operations.uninstall(oldp)
             if kind == "vdb" and op != "uninstall":
                 o.add_data(domain)
+            if same_second:
+                # the rebuild finished within the second the old tbz2 was written in: same integer mtime, different
+                # fraction.  A clock reading, not an operation of the process: not an event.
+                o.add_data()
+                inj.bypass = True
+                try:
+                    ns = old_mtime - old_mtime % 10**9 + (old_mtime % 10**9 + 400_000_000) % 10**9
+                    os.utime(o.tmp_path, ns=(ns, ns))
+                finally:
+                    inj.bypass = False
             return o.finish()
 
         return run
@@ -405,7 +442,7 @@ def _plans(events, tier):
     from verif.engines import faults
     import errno
 
-    return faults.plans_for(events, crash=True, torn=True, errors=(tier == "thorough"), errnos=(errno.EIO,))
+    return faults.plans_for(events, crash=True, torn=True, errors=(tier == "thorough"), errnos=(errno.EIO,), after=True)
 
 
 def _at(events, plan):
@@ -527,13 +564,14 @@ def _vdb_partial_removal(case):
 
 
 def _vdb_replace_neither(case):
-    """vdb replace removes the old entry before renaming the new one into place: between the two neither is listed."""
-    return (
-        case.get("repo") == "vdb"
-        and case.get("scenario", "").startswith("replace-")
-        and case.get("outcome") == "neither"
-        and case.get("at", "").startswith(("os.rename /repo/cat/.tmp.pkg-", "os.utime /repo"))
-    )
+    """vdb replace of the *same fullver* swaps two directories with two renames (old -> .tmp.unmerge.*, .tmp.* -> final):
+    between them neither is listed.  (Before the fix this was: old entry wiped before the new one is renamed in.)"""
+    if not (case.get("repo") == "vdb" and case.get("scenario") == "replace-same-version" and case.get("outcome") == "neither"):
+        return False
+    at, kind = case.get("at", ""), case.get("plan", [""])[0]
+    if kind == "crash_after":
+        return at.startswith("os.rename /repo/cat/pkg-1")
+    return kind in ("crash", "error") and at.startswith("os.rename /repo/cat/.tmp.pkg-1")
 
 
 CLASSIFIERS = {
